@@ -42,6 +42,10 @@ theorem authorize_stores_authorised (cfg : Cfg) (s : St) (user client : Str) (sc
   have hgs : g.scope = filterScopes cfg client scope := by rw [← hgdef]; rfl
   have hgi : g.id = s.next := by rw [← hgdef]; rfl
   split at h
+  · simp at h
+  rename_i hdeny
+  rw [if_neg hdeny]
+  split at h
   · rename_i s2 c' hm
     simp only [Out.code.injEq] at h
     obtain ⟨rfl, hgid⟩ := h
@@ -53,6 +57,37 @@ theorem authorize_stores_authorised (cfg : Cfg) (s : St) (user client : Str) (sc
     · simp [newTok, hgid]
     · simp [newTok]
   · simp at h
+
+/-- **deny_unknown_scopes** (the client's own setting, else the provider's preference): an authorization request that names
+    a scope outside what the client may use is refused as a whole — no grant, no code, no change of state -/
+theorem deny_unknown_refuses (cfg : Cfg) (s : St) (user client : Str) (scope : List Str) (rd : Option Str)
+    (hd : cfg.denyUnknown client = true) (x : Str) (hx : x ∈ scope) (hnot : (cfg.allowed client).contains x = false) :
+    step cfg s (.authorize user client scope rd) = (s, .err "unauthorized_scope") := by
+  have hne : filterScopes cfg client scope ≠ scope := by
+    intro he
+    have : x ∈ filterScopes cfg client scope := by rw [he]; exact hx
+    unfold filterScopes at this
+    rw [List.mem_filter] at this
+    rw [hnot] at this
+    exact absurd this.2 (by simp)
+  simp [step, hd, hne]
+
+/-- ... and what it lets through was granted exactly what it asked for -/
+theorem deny_unknown_grants_exactly (cfg : Cfg) (s : St) (user client : Str) (scope : List Str) (rd : Option Str)
+    (hd : cfg.denyUnknown client = true) (c gid : Nat)
+    (h : (step cfg s (.authorize user client scope rd)).2 = .code c gid) :
+    filterScopes cfg client scope = scope := by
+  simp only [step] at h
+  split at h
+  · simp at h
+  · rename_i hn
+    simpa [hd] using hn
+
+/-- non-vacuity: a client limited to `[1]` with the setting on, asking for `[1, 2]` -/
+example : step { oidc := true, jwt := false, rule := fun _ => { mints := [], expiresIn := 0 }, revokeRefreshOnIssue := false,
+                 allowed := fun _ => [[1]], grantExpiresIn := 0, authnExpiresIn := 10, denyUnknown := fun _ => true } {}
+            (.authorize [1] [2] [[1], [2]] none) = ({}, .err "unauthorized_scope") :=
+  deny_unknown_refuses _ _ _ _ _ _ rfl [2] (by simp) (by decide)
 
 /-- scope invariant restricted to one grant -/
 def GrantScopeInv (s : St) (g : Gr) : Prop := ∀ t ∈ s.toks, t.gid = g.id → Sub t.scope g.scope
